@@ -108,6 +108,12 @@ func ZZ_C03_aggregate() {
 	// ... and which members signed the round over ANOTHER previous signature (only a faulty member does)
 	forked := make([]bool, n)
 	nforked := 0
+	// ... which members delivered a valid partial in a packet that names head.sig as previous signature (what
+	// every honest node sends, chained or not: partials are collected per (round, previous signature of the
+	// PACKET)), and whether anything reached the aggregator that the intake would not have let through
+	honest := make([]bool, n)
+	nhonest := 0
+	unverified := false
 	target := hr + 1
 	wantPrev := head.Signature
 	// each delivered packet is one of a small set of templates (symbolic choice):
@@ -138,12 +144,21 @@ func ZZ_C03_aggregate() {
 			signer = tm
 			sig = sign(nw.ep, signer, r, prev)
 			counts = true
+			if !honest[signer] {
+				honest[signer] = true
+				nhonest++
+			}
 		case tm < 2*n:
 			signer = tm - n
 			prev = zz.Bytes(pfx+".prev", 2)
 			sig = sign(nw.ep, signer, r, prev)
 			counts = !chained || bytes.Equal(prev, wantPrev)
-			if !counts && !forked[signer] {
+			if bytes.Equal(prev, wantPrev) {
+				if !honest[signer] {
+					honest[signer] = true
+					nhonest++
+				}
+			} else if !forked[signer] {
 				forked[signer] = true
 				nforked++
 			}
@@ -159,8 +174,10 @@ func ZZ_C03_aggregate() {
 		case tm == 2*n+3:
 			old := zzfake.Deal(nw.sch, nw.n, nw.t, "group-secret", "epoch0")
 			sig = sign(old, 1, r, prev)
+			unverified = true
 		default:
 			sig = zz.Bytes(pfx+".raw", nw.sch.SigGroup.PointLen()+2)
+			unverified = true
 		}
 		pkt := &proto.PartialBeaconPacket{Round: r, PreviousSignature: prev, PartialSig: sig}
 		if len(base.puts) == 0 && counts && !valid[signer] {
@@ -189,11 +206,14 @@ func ZZ_C03_aggregate() {
 	}
 	if nvalid < t {
 		zz.Assert("below_threshold_nothing_stored", len(base.puts) == 0)
-	} else if nforked < t {
-		// enabling obligation (C05d): t valid partials for head+1 => the beacon is stored and the run loop notified.
-		// Fault model: fewer than t members are faulty. (A THRESHOLD of members signing the round over another
-		// previous signature yields a recovered signature that cannot be appended, and the aggregator has flushed
-		// the round's partials -- the valid ones included -- before it tries; that takes t faulty members.)
+	} else if nhonest >= t && nforked < t && !unverified {
+		// enabling obligation (C05d): t valid partials for head+1, in packets naming head.sig, => the beacon is
+		// stored and the run loop notified. Preconditions: (1) fewer than t members are faulty -- a THRESHOLD of
+		// members signing the round over another previous signature yields a recovered signature that cannot be
+		// appended, and the aggregator has flushed the round's partials, the valid ones included, before it
+		// tries; (2) the aggregator's input passed the intake (ProcessPartialBeacon verifies every partial): the
+		// foreign-epoch and arbitrary-bytes templates are injected here past the intake to check SAFETY only --
+		// one of them sitting at a member's index keeps that member's genuine partial out of the round.
 		zz.Assert("threshold_reached_beacon_stored", len(base.puts) >= 1 && base.puts[0].Round == target)
 		zz.Assert("run_loop_notified", len(cs.catchupBeacons) == 1)
 	}
